@@ -324,6 +324,9 @@ impl<B: Backend> Runner<B> {
         }
     }
 
+    /// ignore everything logged so far (used when a runner adopts an engine)
+    pub fn sync_log_pos(&mut self) { self.log_pos = self.sh.log.lock().len(); }
+
     pub async fn open(&mut self) {
         let mut e = self.backend.open(self.hasher_seed).await;
         register_all(&mut e, &self.sh);
